@@ -67,6 +67,10 @@ fn gen_obj(c: &mut Choice) -> Obj {
     let mut rels_m = vec![];
     let mut relas_m = vec![];
     let mut dyns_m = vec![];
+    // per filler section (by tag): sh_flags and sh_entsize, which mean nothing to the typed views (SHF_COMPRESSED does:
+    // the views are views over section_data, i.e. over what follows the compression header)
+    let mut extra_hdr: std::collections::HashMap<u8, (u64, u64)> = std::collections::HashMap::new();
+    let chdr = |c: &mut Choice| -> Vec<u8> { m::enc_bytes(enc, |w| m::Chdr { ch_type: 1 + c.below(2) as u32, ch_reserved: 0, ch_size: c.val(32), ch_addralign: 1 }.write(w)) };
     if has(0) {
         secs.push(S { name: pick_name(c, b".symtab"), ty: m::SHT_SYMTAB, body: symtab.symtab.clone(), tag: 1, align: word });
         secs.push(S { name: pick_name(c, b".strtab"), ty: m::SHT_STRTAB, body: symtab.strtab.clone(), tag: 2, align: 1 });
@@ -112,7 +116,10 @@ fn gen_obj(c: &mut Choice) -> Obj {
                     v.push(r);
                 }
                 rels_m.push((100 + k as usize, v));
-                secs.push(S { name: pick_name(c, b".rel.a"), ty: m::SHT_REL, body: w.buf, tag: 100 + k as u8, align: word });
+                let comp = c.u8() >= 224;
+                let body = if comp { let mut b = chdr(c); b.extend_from_slice(&w.buf); b } else { w.buf };
+                extra_hdr.insert(100 + k as u8, (if comp { 0x800 } else { *c.pick(&[0u64, 0x2, 0x40, 0x42, 0x20]) }, if c.bool() { m::rel_size(enc) as u64 } else { c.val(16) }));
+                secs.push(S { name: pick_name(c, b".rel.a"), ty: m::SHT_REL, body, tag: 100 + k as u8, align: word });
             }
             1 => {
                 let mut w = m::W::new(enc);
@@ -123,7 +130,10 @@ fn gen_obj(c: &mut Choice) -> Obj {
                     v.push(r);
                 }
                 relas_m.push((100 + k as usize, v));
-                secs.push(S { name: pick_name(c, b".rela.a"), ty: m::SHT_RELA, body: w.buf, tag: 100 + k as u8, align: word });
+                let comp = c.u8() >= 224;
+                let body = if comp { let mut b = chdr(c); b.extend_from_slice(&w.buf); b } else { w.buf };
+                extra_hdr.insert(100 + k as u8, (if comp { 0x800 } else { *c.pick(&[0u64, 0x2, 0x40, 0x42, 0x20]) }, if c.bool() { m::rela_size(enc) as u64 } else { c.val(16) }));
+                secs.push(S { name: pick_name(c, b".rela.a"), ty: m::SHT_RELA, body, tag: 100 + k as u8, align: word });
             }
             2 => {
                 let mut w = m::W::new(enc);
@@ -133,10 +143,15 @@ fn gen_obj(c: &mut Choice) -> Obj {
                 }
                 secs.push(S { name: pick_name(c, b".note.x"), ty: m::SHT_NOTE, body: w.buf, tag: 50, align: 4 });
             }
-            3 => secs.push(S { name: pick_name(c, b".comment"), ty: m::SHT_STRTAB, body: b"\0GCC: (x) 1.0\0tail".to_vec(), tag: 51, align: 1 }),
+            3 => {
+                extra_hdr.insert(51, (*c.pick(&[0u64, 0x30, 0x20, 0x2]), if c.bool() { 0 } else { c.val(16) }));
+                secs.push(S { name: pick_name(c, b".comment"), ty: m::SHT_STRTAB, body: b"\0GCC: (x) 1.0\0tail".to_vec(), tag: 51, align: 1 })
+            }
             4 => secs.push(S { name: pick_name(c, b".bss"), ty: m::SHT_NOBITS, body: vec![], tag: 52, align: 1 }),
             _ => {
                 let l = c.below(20) as usize;
+                // (a PROGBITS section may carry SHF_STRINGS / SHF_MERGE: it is still not a string table)
+                extra_hdr.insert(53, (*c.pick(&[0u64, 0x6, 0x30, 0x20, 0x32, 0x10]), if c.bool() { 0 } else { c.val(16) }));
                 secs.push(S { name: pick_name(c, b".text"), ty: m::SHT_PROGBITS, body: c.bytes(l), tag: 53, align: 1 })
             }
         }
@@ -169,6 +184,10 @@ fn gen_obj(c: &mut Choice) -> Obj {
         if s.ty == m::SHT_NOBITS {
             f.secs[i].no_space = true;
             f.secs[i].hdr.sh_size = 64;
+        }
+        if let Some((fl, es)) = extra_hdr.get(&s.tag) {
+            f.secs[i].hdr.sh_flags = *fl;
+            f.secs[i].hdr.sh_entsize = *es;
         }
         idx_of.insert(s.tag, i);
         sec_names.push(s.name.clone());
@@ -422,8 +441,11 @@ fn check<E: EndianParse + core::fmt::Debug>(e: E, o: &Obj, c: &mut Choice, obs: 
         }
         if let (Ok(a), Ok(b)) = (&rb, &rs) {
             let want: Vec<_> = o.rels.iter().find(|(k, _)| *k == i).map(|(_, v)| v.iter().map(|r| conv::rel(r, enc)).collect()).unwrap_or_default();
-            if *a != want || *b != want {
-                return Err(format!("section {} as Rel entries: slice {:?} stream {:?}, encoded {:?}", i, a, b, want));
+            let same = |x: &Vec<elf::relocation::Rel>| x.len() == want.len() && x.iter().zip(want.iter()).all(|(p, q): (&elf::relocation::Rel, &elf::relocation::Rel)| conv::FieldEq::field_eq(p, q));
+            // (the stream parser's handling of SHF_COMPRESSED sections is outside C07's and this statement's scope)
+            let compressed = hm.sh_flags & 0x800 != 0;
+            if !same(a) || (!compressed && !same(b)) {
+                return Err(format!("section {} (flags {:#x}) as Rel entries: slice {:?} stream {:?}, encoded {:?}", i, hm.sh_flags, a, b, want));
             }
         } else {
             refusals += 1;
@@ -435,8 +457,10 @@ fn check<E: EndianParse + core::fmt::Debug>(e: E, o: &Obj, c: &mut Choice, obs: 
         }
         if let (Ok(a), Ok(b)) = (&rb, &rs) {
             let want: Vec<_> = o.relas.iter().find(|(k, _)| *k == i).map(|(_, v)| v.iter().map(|r| conv::rela(r, enc)).collect()).unwrap_or_default();
-            if *a != want || *b != want {
-                return Err(format!("section {} as Rela entries: slice {:?} stream {:?}, encoded {:?}", i, a, b, want));
+            let same = |x: &Vec<elf::relocation::Rela>| x.len() == want.len() && x.iter().zip(want.iter()).all(|(p, q): (&elf::relocation::Rela, &elf::relocation::Rela)| conv::FieldEq::field_eq(p, q));
+            let compressed = hm.sh_flags & 0x800 != 0;
+            if !same(a) || (!compressed && !same(b)) {
+                return Err(format!("section {} (flags {:#x}) as Rela entries: slice {:?} stream {:?}, encoded {:?}", i, hm.sh_flags, a, b, want));
             }
         } else {
             refusals += 1;
@@ -664,7 +688,7 @@ pub fn property() -> Property {
     Property {
         id: "C20",
         level: "exploration",
-        rule: "cases are generated objects with at most one section of each kind, each of .symtab(+strtab), .dynsym(+dynstr), .dynamic, .hash, .gnu.hash present or absent independently, 1..5 filler sections of types REL/RELA/NOTE/STRTAB/NOBITS/PROGBITS, sections in shuffled order (5%: no SHT_NULL entry in front; rarely 65 541+ sections so that indexes and sh_link values exceed 16 bits), names drawn from a pool of prefixes/suffixes of each other, duplicates, the empty name, a non-UTF-8 name, names differing from another by a trailing 0x01/0x7f/U+0080 byte and names longer than 16 bytes, sh_link of the symbol tables pointing at their string table or at ANY section, PT_DYNAMIC only together with .dynamic, PT_NOTE/other segments, class x order x fixed/run-time spec. Oracle: find_common_data() fields vs symbol_table(), dynamic_symbol_table(), dynamic() (presence, every entry, strings at every offset) and vs hash tables rebuilt from section_data (every name looked up through both); section_header_by_name(n) (both parsers) = first header of a manual scan whose UTF-8 name string equals n, for every present name, prefixes, extensions, absent names and queries containing NULs that line up with adjacent string-table entries; every section handed to every typed view (strtab, rels, relas, notes; both parsers): refused iff the type differs, otherwise entries equal the encoded model / the reference walk of the raw bytes; segment_data_as_notes refused iff p_type != PT_NOTE; dynamic() via .dynamic equals dynamic() and find_common_data().dynamic of the stripped twin (e_shoff=0) via PT_DYNAMIC, both parsers. Non-trivial: >=3 kinds present, at least one wrong-type refusal and one duplicate/prefix name query; distinct by file hash. Subcheck damaged: the same objects with one or two fields (sh_entsize, sh_link, sh_size, sh_offset) of the .symtab/.dynsym/.dynamic/.hash/.gnu.hash section headers overwritten with wrong values (0, off by one, the other class's size, counts, beyond EOF, 2^32+right): find_common_data() succeeds exactly when symbol_table(), dynamic_symbol_table(), dynamic() and the hash-table constructors on the raw section bytes all succeed, and then holds the same tables; non-trivial there: both refuse.",
+        rule: "cases are generated objects with at most one section of each kind, each of .symtab(+strtab), .dynsym(+dynstr), .dynamic, .hash, .gnu.hash present or absent independently, 1..5 filler sections of types REL/RELA/NOTE/STRTAB/NOBITS/PROGBITS with arbitrary sh_entsize and flags such as SHF_STRINGS/SHF_MERGE/SHF_INFO_LINK (an eighth of the REL/RELA sections flagged SHF_COMPRESSED behind a compression header, where the view is the view over section_data), sections in shuffled order (5%: no SHT_NULL entry in front; rarely 65 541+ sections so that indexes and sh_link values exceed 16 bits), names drawn from a pool of prefixes/suffixes of each other, duplicates, the empty name, a non-UTF-8 name, names differing from another by a trailing 0x01/0x7f/U+0080 byte and names longer than 16 bytes, sh_link of the symbol tables pointing at their string table or at ANY section, PT_DYNAMIC only together with .dynamic, PT_NOTE/other segments, class x order x fixed/run-time spec. Oracle: find_common_data() fields vs symbol_table(), dynamic_symbol_table(), dynamic() (presence, every entry, strings at every offset) and vs hash tables rebuilt from section_data (every name looked up through both); section_header_by_name(n) (both parsers) = first header of a manual scan whose UTF-8 name string equals n, for every present name, prefixes, extensions, absent names and queries containing NULs that line up with adjacent string-table entries; every section handed to every typed view (strtab, rels, relas, notes; both parsers): refused iff the type differs, otherwise entries equal the encoded model / the reference walk of the raw bytes; segment_data_as_notes refused iff p_type != PT_NOTE; dynamic() via .dynamic equals dynamic() and find_common_data().dynamic of the stripped twin (e_shoff=0) via PT_DYNAMIC, both parsers. Non-trivial: >=3 kinds present, at least one wrong-type refusal and one duplicate/prefix name query; distinct by file hash. Subcheck damaged: the same objects with one or two fields (sh_entsize, sh_link, sh_size, sh_offset) of the .symtab/.dynsym/.dynamic/.hash/.gnu.hash section headers overwritten with wrong values (0, off by one, the other class's size, counts, beyond EOF, 2^32+right): find_common_data() succeeds exactly when symbol_table(), dynamic_symbol_table(), dynamic() and the hash-table constructors on the raw section bytes all succeed, and then holds the same tables; non-trivial there: both refuse.",
         assumptions: &["only refusal (Err) is required for wrong-type views, not a particular error kind", "in subcheck paths objects are well formed, so find_common_data and the targeted accessors are required to succeed; in subcheck damaged only their agreement is required"],
         subs: vec![Sub::new("paths", oracle, 900, 800_000, 25_000_000).shrink(2500), Sub::new("damaged", oracle_damaged, 900, 150_000, 10_000_000).shrink(2500)],
         extras: vec![crate::fuzz::c20_choice_paths, crate::fuzz::c20_choice_damaged],
